@@ -179,6 +179,13 @@ def extremes_rule(ctx, P, rule, files=('src/statistics.c',)):
             continue
         n += 1
         ctx.saw(fn, 1)
+        # the sentinel is the identity for the type the accumulator has: a double accumulator that starts at +/-FLT_MAX
+        # keeps the start value for data beyond the float range
+        small = [d for d in fn.events('decl') if d.name in (mins | maxs) and (d.t or '') == 'f64' and d.e is not None and
+                 isinstance(_fconst(d.e), (int, float)) and abs(_fconst(d.e)) < 1e308]
+        ctx.ob(rule, not small, fn.name, 'start values cover the accumulator type', (small[0] if small else fn).where(),
+               'every sentinel is the largest value of its type' if not small else
+               'the double accumulator %s starts at %s: double data that lies entirely beyond the float range leaves it there, and the reported extreme is not a sample' % (small[0].name, _fconst(small[0].e)))
         bad = []
         for ev in fn.stores():
             if ev.k != 'store':
